@@ -561,7 +561,20 @@ where
                                         RefinedTsTypeElement::MethodSignature(method) => {
                                             method.optional = true;
                                         }
-                                        RefinedTsTypeElement::GetterSignature(..) => {}
+                                        // a getter signature can't be marked optional:
+                                        // it becomes the optional property it declares
+                                        RefinedTsTypeElement::GetterSignature(getter) => {
+                                            prop = RefinedTsTypeElement::Property(
+                                                TsPropertySignature {
+                                                    span: getter.span,
+                                                    readonly: true,
+                                                    key: getter.key.clone(),
+                                                    computed: getter.computed,
+                                                    optional: true,
+                                                    type_ann: getter.type_ann.clone(),
+                                                },
+                                            );
+                                        }
                                         RefinedTsTypeElement::CallSignature(..) => {}
                                     }
                                     prop
